@@ -9,7 +9,7 @@ import common
 import xref
 from common import Stats
 
-CLASSES = {"ok": ["0"], "fail": ["1", "2", "125", "64", "3"], "urgent": ["255"], "signal": ["k9", "k15", "k11", "k6", "k13", "k1", "k2", "k3"]}
+CLASSES = {"ok": ["0"], "fail": ["1", "2", "125", "64", "3"], "urgent": ["255"], "signal": ["k9", "k15", "k11", "k6", "k13", "k1", "k2", "k3", "k34", "k40", "k64", "k31"]}
 
 
 def model(seq):
